@@ -733,6 +733,7 @@ class CallMixin:
             for i, a in enumerate(site_args):
                 st.env[f"arg{i}"] = a
             st.env["$result"] = res
+            st.env["callresult"] = res     # the callee's result under a name that cannot clash with a parameter called `result`
             n_res = len(res.items) if isinstance(res, TupV) else 0
             for i in range(n_res):
                 st.env[f"result{i}"] = res.items[i]
